@@ -321,6 +321,17 @@ def run_property(P, pid, tier, seed, replay):
         for mode, exe in modes:
             prefix = mode if getattr(P, "RELEASE", False) else None
             impl = run_cases(exe, lines, prefix)
+            # a watchdog answer (TIMEOUT) can be a transient of the machine (a long schedule under a momentarily slow host): ask again, alone
+            # and twice, before it counts - a real hang of the code under test answers TIMEOUT every time
+            n_to = sum(1 for o in impl if o == "TIMEOUT")
+            for i, o in enumerate(impl):
+                if o == "TIMEOUT" and n_to <= 3:         # (many TIMEOUT answers are no transient; they are judged as they are)
+                    for _ in range(2):
+                        o2 = run_cases(exe, [lines[i]], prefix)[0]
+                        if o2 != "TIMEOUT":
+                            notes.append("a TIMEOUT answer did not repeat when the line was run alone (transient): %s" % lines[i][:80])
+                            impl[i] = o2
+                            break
             model = run_cases(vlib.modelrun_exe(), lines, prefix)
             runs.append((mode, impl, model))
     elif okh:
